@@ -1,6 +1,9 @@
 package main
 
 import (
+	"runtime"
+	"strings"
+	"sync/atomic"
 	"bytes"
 	gocontext "context"
 	"fmt"
@@ -121,4 +124,146 @@ func c08StalledPeer(c *Ctx) {
 		}
 		c.Count(id, ok, "stream:stalled-peer", fmt.Sprintf("stalled-peer:write-ok=%v", writeErr == nil))
 	}
+}
+
+// c08QueuedEvents: events written from several goroutines while a request of that connection is being served (net/http
+// reports StateActive → SetServing(true), and StateIdle after the response → SetServing(false)). While the request is
+// served nothing but the response reaches the socket; afterwards every event that was handed to WriteEvent (it returned
+// success) arrives exactly once, whole, in frames that authenticate in order.
+func c08QueuedEvents(c *Ctx) {
+	for i := 0; i < c.Pick(6, 60); i++ {
+		id := c.CaseID("queued-events", i)
+		if c.Skip(id) {
+			continue
+		}
+		r := c.CaseRng("queued-events", i)
+		raw := &sinkConn{remote: fakeAddr(fmt.Sprintf("10.8.1.%d:%d", i%250+1, 7000+i))}
+		ctx := hap.NewContextForSecuredDevice(nil)
+		conn := hap.NewConnection(raw, ctx)
+		var shared [32]byte
+		copy(shared[:], randBytes(r, 32))
+		sec, _ := crypto.NewSecureSessionFromSharedKey(shared)
+		ctx.GetSessionForConnection(raw).SetCryptographer(sec)
+		responseWritten(ctx, raw)
+		peer := newRefControllerSession(shared[:])
+		writers, per := 2+r.Intn(7), 10+r.Intn(40)
+		mk := func(w, k int) []byte { return []byte(fmt.Sprintf("EVENT/1.0 200 OK\r\nX: w%02dk%03d %s\r\n\r\n", w, k, strings.Repeat("e", w*7+k%50))) }
+		var wg sync.WaitGroup
+		start := make(chan struct{})
+		var failed int64
+		for w := 0; w < writers; w++ {
+			wg.Add(1)
+			go func(w int) {
+				defer wg.Done()
+				<-start
+				for k := 0; k < per; k++ {
+					if n, err := conn.WriteEvent(mk(w, k)); err != nil || n != len(mk(w, k)) {
+						atomic.AddInt64(&failed, 1)
+					}
+					if k%7 == 0 {
+						runtime.Gosched()
+					}
+				}
+			}(w)
+		}
+		size := func() int { raw.mu.Lock(); defer raw.mu.Unlock(); return len(raw.out) }
+		close(start)
+		response := []byte("HTTP/1.1 204 No Content\r\n\r\n")
+		duringServing := ""
+		requests := 0
+		for ; requests < 40; requests++ {
+			conn.SetServing(true) // a request arrives
+			before := size()
+			time.Sleep(time.Duration(r.Intn(300)) * time.Microsecond) // the handler runs
+			if after := size(); after != before && duringServing == "" {
+				duringServing = fmt.Sprintf("request %d: %d bytes reached the socket while the request was being served, before its response", requests, after-before)
+			}
+			conn.Write(response)
+			conn.SetServing(false)
+		}
+		wg.Wait()
+		conn.SetServing(true)
+		conn.SetServing(false) // nothing is being served: whatever was kept back goes out
+		in := map[string]interface{}{"event_writers": writers, "events_each": per, "requests_served_meanwhile": requests}
+		if duringServing != "" {
+			c.Violate("an event is written while a request of the connection is being served (between the request and its response)", id, in, "events are kept back until the response was written", duringServing)
+		}
+		pt, _, ok := peer.DecryptFrames(raw.out)
+		if !ok {
+			c.Violate("C08 queued events: a frame does not authenticate", id, in, "every frame authenticates in order", fmt.Sprintf("after %d plaintext bytes", len(pt)))
+			continue
+		}
+		text := strings.Replace(string(pt), string(response), "", -1)
+		missing, dup := 0, 0
+		for w := 0; w < writers; w++ {
+			for k := 0; k < per; k++ {
+				switch n := strings.Count(text, string(mk(w, k))); {
+				case n == 0:
+					missing++
+				case n > 1:
+					dup++
+				}
+			}
+		}
+		if (missing > 0 || dup > 0) && failed == 0 {
+			c.Violate("an event handed to a connection while a request was being served is lost or duplicated", id, in,
+				fmt.Sprintf("%d events, each exactly once", writers*per), fmt.Sprintf("%d missing, %d duplicated", missing, dup))
+		}
+		c.Count(id, true, "stream:queued-events", fmt.Sprintf("queued-events:writers=%d", writers))
+	}
+}
+
+// c08EventInFlight: an event whose socket write is still in progress (a slow controller) when the next request of that
+// connection arrives. The connection must not be reported as "serving a request" (after which the response — possibly
+// the one that switches keys — is written) until that event is completely on the wire: forced with a gate inside the
+// scripted socket's Write.
+func c08EventInFlight(c *Ctx) {
+	id := "event-in-flight#0"
+	if c.Skip(id) {
+		return
+	}
+	r := c.CaseRng("event-in-flight", 0)
+	raw := newHoConn()
+	ctx := hap.NewContextForSecuredDevice(nil)
+	conn := hap.NewConnection(raw, ctx)
+	var shared [32]byte
+	copy(shared[:], randBytes(r, 32))
+	sec, _ := crypto.NewSecureSessionFromSharedKey(shared)
+	ctx.GetSessionForConnection(raw).SetCryptographer(sec)
+	responseWritten(ctx, raw)
+	gate := make(chan struct{})
+	raw.mu.Lock()
+	raw.gate = gate
+	raw.mu.Unlock()
+	evDone := make(chan struct{})
+	go func() { defer close(evDone); conn.WriteEvent([]byte("EVENT/1.0 200 OK\r\n\r\n")) }()
+	select {
+	case <-raw.entered: // the event's socket write has begun and is held
+	case <-time.After(2 * time.Second):
+		c.Mismatch("event-in-flight", id, nil, "the event reaches the socket", "it does not")
+		close(gate)
+		return
+	}
+	served := make(chan struct{})
+	go func() { defer close(served); conn.SetServing(true) }()
+	early := false
+	select {
+	case <-served:
+		early = true
+	case <-time.After(150 * time.Millisecond):
+	}
+	close(gate)
+	<-evDone
+	select {
+	case <-served:
+	case <-time.After(2 * time.Second):
+		c.Violate("a connection never starts serving a request that arrived while an event was being written", id, nil, "serving after the event is on the wire", "blocked")
+	}
+	if early {
+		c.Violate("a request is taken up (its response may be written) while an event of the same connection is still on its way to the socket", id,
+			map[string]interface{}{"order": "WriteEvent reaches the socket and is held; a request arrives (SetServing(true))"}, "the request waits until the event is written completely", "SetServing(true) returned while the event's socket write was pending")
+	}
+	conn.SetServing(false)
+	raw.Close()
+	c.Count(id, true, "stream:event-in-flight")
 }
